@@ -17,6 +17,7 @@ import (
 	"math/rand"
 	"os"
 	"strings"
+	"time"
 
 	"0chain.net/chaincore/block"
 	"0chain.net/chaincore/chain"
@@ -43,6 +44,12 @@ const (
 	restartMult = 2  // soft timeouts before a round restart (server_chain.round_timeouts.round_restart_mult)
 	tocCap      = 3  // server_chain.round_timeouts.timeout_cap
 	ahead       = 5  // server_chain.lfb_ticket.ahead
+	// server_chain.block.proposal.max_wait_time: how long the verification collector accumulates proposals before
+	// it starts verifying. Long enough for the node's own proposal (a few ms) to be among the accumulated ones,
+	// so that the order "own block, then timer" does not depend on scheduling; the harness lets the timer fire
+	// before it sends anything else (collectSettle).
+	collectWait   = "120ms"
+	collectSettle = 170 * time.Millisecond
 )
 
 type realDKG struct {
@@ -130,7 +137,7 @@ func Run(a vc.Args) {
 		Overrides: map[string]interface{}{
 			"server_chain.block.min_block_size":                  1,
 			"server_chain.block.generation.timeout":              15,
-			"server_chain.block.proposal.max_wait_time":          "1ms",
+			"server_chain.block.proposal.max_wait_time":          collectWait,
 			"server_chain.block.sharding.min_active_sharders":    0,
 			"server_chain.block.sharding.min_active_replicators": 0,
 			"server_chain.round_timeouts.round_restart_mult":     restartMult,
